@@ -24,7 +24,7 @@ import (
 // ---- store level: the C02 history machinery with a high share of shared subscriptions ----
 
 func TestC11Store(t *testing.T) {
-	ev.SetRule("C11", "store: rapid histories of Subscribe/Unsubscribe/UnsubscribeAll where ~1/4 of the subscriptions are shared (groups g1,g2; one client in several groups on one filter; several members per group) against map[client]map[fullFilter]; shared and non-shared lookups, by-client iteration and counters compared after every op, all 84 topics after the last op. broker: 2-4 v5 clients join/leave groups (SUBSCRIBE, UNSUBSCRIBE, DISCONNECT with expiry 0, clean take-over, TerminateSession, elapse of a 1 s session expiry interval set at DISCONNECT - waited out in real time plus a 400 ms margin, well before the broker's 20 s sweeper runs) or go offline with a persistent session; every subscription carries a unique subscription identifier so each received copy is attributable; after all publishes offline members are drained; per message and (group,filter) with >=1 member exactly one copy over the group's members, at min QoS, never to a session that had left; non-shared copies per the C01 model; no retained replay on a shared SUBSCRIBE; 'race' steps end a member's session (clean take-over, TerminateSession, DISCONNECT with expiry 0; optionally with 2-20 ms OnConnected/OnSessionTerminated hooks) WHILE 3-4 connections pipeline QoS1 publishes aimed at its groups: every subscription identifier and every connection carries the session number of its client id, and a copy routed through a subscription of session #n may only arrive on a connection of session #n (at most one copy per group, exactly one when the leaver was not a member). Non-trivial: a leave followed by a publish matching the leaver's former group while another member remains; distinct by scenario digest.")
+	ev.SetRule("C11", "store: rapid histories of Subscribe/Unsubscribe/UnsubscribeAll where ~1/4 of the subscriptions are shared (groups g1,g2; one client in several groups on one filter; several members per group) against map[client]map[fullFilter]; shared and non-shared lookups, by-client iteration and counters compared after every op, all 87 topics after the last op. broker: 2-4 v5 clients join/leave groups (SUBSCRIBE, UNSUBSCRIBE, DISCONNECT with expiry 0, clean take-over, TerminateSession, elapse of a 1 s session expiry interval set at DISCONNECT - waited out in real time plus a 400 ms margin, well before the broker's 20 s sweeper runs) or go offline with a persistent session; every subscription carries a unique subscription identifier so each received copy is attributable; after all publishes offline members are drained; per message and (group,filter) with >=1 member exactly one copy over the group's members, at min QoS, never to a session that had left; non-shared copies per the C01 model; no retained replay on a shared SUBSCRIBE; 'race' steps end a member's session (clean take-over, TerminateSession, DISCONNECT with expiry 0; optionally with 2-20 ms OnConnected/OnSessionTerminated hooks) WHILE 3-4 connections pipeline QoS1 publishes aimed at its groups: every subscription identifier and every connection carries the session number of its client id, and a copy routed through a subscription of session #n may only arrive on a connection of session #n (at most one copy per group, exactly one when the leaver was not a member). Non-trivial: a leave followed by a publish matching the leaver's former group while another member remains; distinct by scenario digest.")
 	ev.RunN(t, "C11", 3, func(t *rapid.T) c02Scen {
 		s := c02Scen{Backend: "mem", Shared: true}
 		s.Ops = genSubOps(t, true, 40)
